@@ -19,7 +19,7 @@ hvars == <<vars, hist, nextId>>
 Alphabet == <<"a","b","c","d","e","f","g","h","i","j","k","l","m","n","o","p","q","r","s","t","u","v","w","x","y","z",
               "A","B","C","D","E","F","G","H","I","J","K","L","M","N","O","P","Q","R","S","T","U","V","W","X","Y","Z",
               "0","1","2","3","4","5","6","7","8","9">>
-Sym(id, k) == Alphabet[((id - 1) * 9 + (k - 1)) % 62 + 1]
+Sym(id, k) == Alphabet[(((id - 1) * 9 + (k - 1)) % 62) + 1]
 Line(id, len) == [k \in 1..len |-> Sym(id, k)]
 
 MCModes == BOOLEAN
@@ -39,16 +39,18 @@ PairsW7 == {<<3, 8>>, <<15, 0>>, <<7, 7>>}
 HInit == /\ \E a \in Modes, p \in Pres : InitWith(W, a, p)
          /\ hist = <<>> /\ nextId = 1
 
-Ops ==
-  \/ Len(secs) < MaxSections /\ Create /\ UNCHANGED nextId
-  \/ \E i \in 1..Len(secs) :
-       \/ \E n \in Lens : WriteLine(i, <<Line(nextId, n)>>) /\ nextId' = nextId + 1
-       \/ \E p \in Pairs : WriteLine(i, <<Line(nextId, p[1]), Line(nextId + 1, p[2])>>) /\ nextId' = nextId + 2
-       \/ \E n \in Lens : Overwrite(i, <<Line(nextId, n)>>) /\ nextId' = nextId + 1
-       \/ Clear(i) /\ UNCHANGED nextId
-       \/ \E n \in 1..MaxN : ClearN(i, n) /\ UNCHANGED nextId
+\* one named action per operation kind (TLC reports coverage per action; the driver refuses a run in which one
+\* of them never fired)
+H(A) == Len(hist) < Depth /\ A /\ hist' = Append(hist, last')
+HCreate == \E k \in {Len(secs) + 1} : H(k <= MaxSections /\ Create /\ UNCHANGED nextId)
+HWrite1 == \E i \in 1..Len(secs), n \in Lens : H(WriteLine(i, <<Line(nextId, n)>>) /\ nextId' = nextId + 1)
+HWrite2 == \E i \in 1..Len(secs), p \in Pairs :
+             H(WriteLine(i, <<Line(nextId, p[1]), Line(nextId + 1, p[2])>>) /\ nextId' = nextId + 2)
+HOverwrite == \E i \in 1..Len(secs), n \in Lens : H(Overwrite(i, <<Line(nextId, n)>>) /\ nextId' = nextId + 1)
+HClear == \E i \in 1..Len(secs) : H(Clear(i) /\ UNCHANGED nextId)
+HClearN == \E i \in 1..Len(secs), n \in 1..MaxN : H(ClearN(i, n) /\ UNCHANGED nextId)
 
-HNext == Len(hist) < Depth /\ Ops /\ hist' = Append(hist, last')
+HNext == HCreate \/ HWrite1 \/ HWrite2 \/ HOverwrite \/ HClear \/ HClearN
 HSpec == HInit /\ [][HNext]_hvars
 
 \* hist is a history variable only: two states that differ in hist alone behave alike
